@@ -87,6 +87,12 @@ CLAIMED = {
    text="Bounded model checking: for every similarity matrix of any sign up to the bound and every threshold, adjacency = [i != j and (damped) |S_ij| > theta], symmetric for symmetric input, with n_links, link_density and threshold() consistent after construction and after set_threshold sequences; for every requested density in [0,1] the realised density never exceeds the request and misses it by at most the pairs tied at the selected value, through the constructor and through set_link_density, for unit and for zero diagonals.",
    note="Bounds: N<=3 (4 thorough for thresholds), setter sequences <=2. Exact reals; the float32 cast of the similarity matrix is erased. How subclasses compute similarities is C10.",
    ref="DESIGN.md §3 C09"),
+ "C17": dict(
+   engine="K",
+   technique="bounded symbolic execution (Cython parse-tree interpreter) of ONE accepted rewiring step from an arbitrary valid pre-state: concrete topology + consistent edge array (representation invariant), symbolic distance matrix, tolerance and random draws; z3 (LIA/LRA); sat models replayed on the compiled kernels over many seeds",
+   text="Bounded model checking of the inductive step: after one accepted step of geographical rewiring I/II/III from every labelled graph up to the bound, for every distance matrix, tolerance and pair of drawn links, the adjacency is symmetric, loop-free and 0/1, every degree is unchanged, the edge array still lists each link once, the two new link lengths match the two removed ones within the tolerance and (III) the degree pairs of rewired links are equal; cross-link setting creates exactly the requested number of links and cross-link swaps preserve every cross degree, both leaving all other entries untouched (symbolic internal links). Histories of any length follow by induction since the post-state satisfies the invariant again.",
+   note="Bounds: all graphs n=4 with >=2 links (n=5 sampled, thorough); bipartitions of n<=4. Rejection loops are analysed under the assumption that the drawn candidate is accepted (termination outside). igraph-based generators (ErdosRenyi, Configuration, WattsStrogatz, randomly_rewire) and the growth models are outside.",
+   ref="DESIGN.md §3 C17"),
 }
 NA_DEFAULT = "check not built yet in this round (see DESIGN.md §6 for the planned obligation)"
 def main():
